@@ -80,6 +80,9 @@ def transform_configs():
             cfgs.append({"cls": "LessThan", "lo": None, "hi": b, "tf": tf, "tensor": False})
     for tf in ("softplus", "exp"):
         cfgs.append({"cls": "Positive", "lo": None, "hi": None, "tf": tf, "tensor": False})
+    # a registered transform given WITHOUT its inverse (the inverse of torch.exp is looked up in the library's transform registry)
+    cfgs.append({"cls": "Positive", "lo": None, "hi": None, "tf": "exp", "tensor": False, "inv": "registry"})
+    cfgs.append({"cls": "GreaterThan", "lo": BOUND_VALUES[len(BOUND_VALUES) // 2], "hi": None, "tf": "exp", "tensor": False, "inv": "registry"})
     # tensor-valued bounds
     cfgs.append({"cls": "Interval", "lo": "pairs_lo", "hi": "pairs_hi", "tf": "sigmoid", "tensor": True})
     cfgs.append({"cls": "Interval", "lo": -2e8, "hi": "values", "tf": "sigmoid", "tensor": True})
@@ -113,6 +116,8 @@ def build_constraint(cfg, dtype):
     kw = {}
     if cfg["tf"] == "exp":
         kw = {"transform": torch.exp, "inv_transform": torch.log}
+        if cfg.get("inv") == "registry":
+            kw = {"transform": torch.exp}
     lo, hi = _bound(cfg["lo"]), _bound(cfg["hi"])
     if cfg["cls"] == "Interval":
         c = Interval(lo, hi)
